@@ -20,6 +20,7 @@ import (
 	"go/token"
 	"go/types"
 	"path/filepath"
+	"sort"
 	"strconv"
 	"strings"
 )
@@ -130,6 +131,10 @@ func (tr *c03Tr) arith(e ast.Expr, used map[string]bool) (string, string, error)
 				return x.Value, "nat", nil
 			}
 		}
+	case *ast.Ident:
+		if x.Name == "true" || x.Name == "false" {
+			return x.Name, "bool", nil
+		}
 	case *ast.SelectorExpr:
 		switch c03Str(x) {
 		case tr.recv + ".num":
@@ -167,6 +172,12 @@ func (tr *c03Tr) arith(e ast.Expr, used map[string]bool) (string, string, error)
 				return "(" + a + op + b + ")", "bool", nil
 			}
 		case token.EQL, token.NEQ, token.LSS, token.GTR, token.LEQ, token.GEQ:
+			if ta == "bool" && tb == "bool" && x.Op == token.EQL {
+				return "(Bool.eqb " + a + " " + b + ")", "bool", nil
+			}
+			if ta == "bool" && tb == "bool" && x.Op == token.NEQ {
+				return "(negb (Bool.eqb " + a + " " + b + "))", "bool", nil
+			}
 			if ta == "nat" && tb == "nat" {
 				switch x.Op {
 				case token.EQL:
@@ -208,71 +219,254 @@ func c03NotNil(e ast.Expr) (ast.Expr, bool) {
 	return nil, false
 }
 
-func (tr *c03Tr) cond(e ast.Expr) string {
+// value of an arithmetic / boolean condition over num, len(tasks), needAll in an environment (ok = evaluated)
+func (tr *c03Tr) eval(e ast.Expr, env map[string]int) (int, bool) {
 	e = c03Unparen(e)
-	// conditions over num / len(tasks) / needAll
+	b2i := func(b bool) int {
+		if b {
+			return 1
+		}
+		return 0
+	}
+	switch x := e.(type) {
+	case *ast.BasicLit:
+		if n, err := strconv.Atoi(x.Value); err == nil {
+			return n, true
+		}
+	case *ast.Ident:
+		if x.Name == "true" {
+			return 1, true
+		}
+		if x.Name == "false" {
+			return 0, true
+		}
+	case *ast.SelectorExpr:
+		switch c03Str(x) {
+		case tr.recv + ".num":
+			return env["num"], true
+		case tr.recv + ".needAll":
+			return env["needAll"], true
+		}
+	case *ast.CallExpr:
+		if id, ok := x.Fun.(*ast.Ident); ok && id.Name == "len" {
+			return env["len"], true
+		}
+	case *ast.UnaryExpr:
+		if v, ok := tr.eval(x.X, env); ok && x.Op == token.NOT {
+			return 1 - v, true
+		}
+	case *ast.BinaryExpr:
+		l, ok1 := tr.eval(x.X, env)
+		r, ok2 := tr.eval(x.Y, env)
+		if ok1 && ok2 {
+			switch x.Op {
+			case token.LAND:
+				return b2i(l != 0 && r != 0), true
+			case token.LOR:
+				return b2i(l != 0 || r != 0), true
+			case token.EQL:
+				return b2i(l == r), true
+			case token.NEQ:
+				return b2i(l != r), true
+			case token.LSS:
+				return b2i(l < r), true
+			case token.GTR:
+				return b2i(l > r), true
+			case token.LEQ:
+				return b2i(l <= r), true
+			case token.GEQ:
+				return b2i(l >= r), true
+			}
+		}
+	}
+	return 0, false
+}
+
+// a boolean formula over opaque atoms: role -> truth value; roles: pre (X.preProcessor != nil), skip
+// (X.skipPreHandler), err, post, rec (the recovered value != nil), sync (the synchronous task != nil),
+// ok (the second result of waitOne); anything else: not a formula
+func (tr *c03Tr) formula(e ast.Expr, roles map[string]bool) (func(map[string]bool) bool, bool) {
+	e = c03Unparen(e)
+	atom := func(role string) (func(map[string]bool) bool, bool) {
+		roles[role] = true
+		return func(v map[string]bool) bool { return v[role] }, true
+	}
+	isTrue := func(x ast.Expr) (bool, bool) {
+		if id, ok := c03Unparen(x).(*ast.Ident); ok && (id.Name == "true" || id.Name == "false") {
+			return id.Name == "true", true
+		}
+		return false, false
+	}
+	switch x := e.(type) {
+	case *ast.UnaryExpr:
+		if x.Op == token.NOT {
+			if f, ok := tr.formula(x.X, roles); ok {
+				return func(v map[string]bool) bool { return !f(v) }, true
+			}
+		}
+		return nil, false
+	case *ast.BinaryExpr:
+		switch x.Op {
+		case token.LAND, token.LOR:
+			f, ok1 := tr.formula(x.X, roles)
+			g, ok2 := tr.formula(x.Y, roles)
+			if !ok1 || !ok2 {
+				return nil, false
+			}
+			if x.Op == token.LAND {
+				return func(v map[string]bool) bool { return f(v) && g(v) }, true
+			}
+			return func(v map[string]bool) bool { return f(v) || g(v) }, true
+		case token.EQL, token.NEQ:
+			// X == nil / X != nil ; B == true / B != false ...
+			var other ast.Expr
+			switch {
+			case c03IsNil(x.Y):
+				other = x.X
+			case c03IsNil(x.X):
+				other = x.Y
+			}
+			if other != nil {
+				s := c03Str(c03Unparen(other))
+				role := ""
+				switch {
+				case s == "err" || strings.HasSuffix(s, ".err"):
+					role = "err"
+				case strings.HasSuffix(s, ".preProcessor"):
+					role = "pre"
+				case strings.HasSuffix(s, ".postProcessor"):
+					role = "post"
+				case tr.recovers[s]:
+					role = "rec"
+				case tr.syncs[s]:
+					role = "sync"
+				default:
+					return nil, false
+				}
+				f, _ := atom(role) // true = not nil
+				if x.Op == token.EQL {
+					return func(v map[string]bool) bool { return !f(v) }, true
+				}
+				return f, true
+			}
+			for _, pr := range [][2]ast.Expr{{x.X, x.Y}, {x.Y, x.X}} {
+				if lit, ok := isTrue(pr[1]); ok {
+					f, ok := tr.formula(pr[0], roles)
+					if !ok {
+						return nil, false
+					}
+					if lit == (x.Op == token.EQL) {
+						return f, true
+					}
+					return func(v map[string]bool) bool { return !f(v) }, true
+				}
+			}
+		}
+		return nil, false
+	case *ast.Ident:
+		if tr.oks[x.Name] {
+			return atom("ok")
+		}
+	case *ast.SelectorExpr:
+		if strings.HasSuffix(c03Str(x), ".skipPreHandler") {
+			return atom("skip")
+		}
+	}
+	return nil, false
+}
+
+// the class of a test and whether the source has its negation (the caller then swaps the arms)
+func (tr *c03Tr) cond(e ast.Expr) (string, bool) {
+	e = c03Unparen(e)
+	// conditions over num / len(tasks) / needAll: by their values
 	used := map[string]bool{}
 	if txt, ty, err := tr.arith(e, used); err == nil && ty == "bool" {
+		at := func(num, ln, na int) bool {
+			v, _ := tr.eval(e, map[string]int{"num": num, "len": ln, "needAll": na})
+			return v != 0
+		}
 		switch {
 		case used["len"] && !used["num"] && !used["needAll"]:
-			// len(tasks) == 0
-			if b, ok := e.(*ast.BinaryExpr); ok && b.Op == token.EQL && (c03Str(b.Y) == "0" || c03Str(b.X) == "0") {
-				return "CNoTasks"
+			switch {
+			case at(0, 0, 0) && !at(0, 1, 0) && !at(0, 2, 0) && !at(0, 3, 0):
+				return "CNoTasks", false
+			case !at(0, 0, 0) && at(0, 1, 0) && at(0, 2, 0) && at(0, 3, 0):
+				return "CNoTasks", true
 			}
-			return "COther"
+			return "COther", false
 		case used["needAll"] && !used["num"] && !used["len"]:
-			if txt == "needAll" {
-				return "CNeedAll"
+			switch {
+			case at(0, 0, 1) && !at(0, 0, 0):
+				return "CNeedAll", false
+			case !at(0, 0, 1) && at(0, 0, 0):
+				return "CNeedAll", true
 			}
-			return "COther"
+			return "COther", false
 		case used["num"] && !used["len"] && !used["needAll"]:
-			if tr.numCond == "" {
-				tr.numCond = txt
-				return "CNumTest"
+			if tr.numCond != "" {
+				return "COther", false
 			}
-			return "COther"
+			if at(0, 0, 0) {
+				tr.numCond = txt
+				return "CNumTest", false
+			}
+			tr.numCond = "(negb " + txt + ")" // `if t.num > 0 { .. } else { return none }`
+			return "CNumTest", true
 		default:
 			if tr.syncCond == "" {
 				tr.syncCond = txt
-				return "CSyncCond"
+				return "CSyncCond", false
 			}
-			return "COther"
+			return "COther", false
 		}
 	}
-	if x, ok := c03NotNil(e); ok {
-		s := c03Str(x)
-		switch {
-		case s == "err" || strings.HasSuffix(s, ".err"):
-			return "CErrSet"
-		case strings.HasSuffix(s, ".postProcessor"):
-			return "CHasPost"
-		case tr.recovers[s]:
-			return "CPanicked"
-		case tr.syncs[s]:
-			return "CSyncSet"
-		}
-		return "COther"
+	roles := map[string]bool{}
+	f, ok := tr.formula(e, roles)
+	if !ok {
+		return "COther", false
 	}
-	if b, ok := e.(*ast.BinaryExpr); ok && b.Op == token.LAND {
-		// task.call.preProcessor != nil && !task.skipPreHandler   (either order)
-		has := func(p, q ast.Expr) bool {
-			x, ok := c03NotNil(p)
-			if !ok || !strings.HasSuffix(c03Str(x), ".preProcessor") {
-				return false
+	var names []string
+	for r := range roles {
+		names = append(names, r)
+	}
+	sort.Strings(names)
+	// truth table against the known tests
+	type known struct {
+		class string
+		roles string
+		spec  func(map[string]bool) bool
+	}
+	for _, k := range []known{
+		{"CErrSet", "err", func(v map[string]bool) bool { return v["err"] }},
+		{"CHasPost", "post", func(v map[string]bool) bool { return v["post"] }},
+		{"CPanicked", "rec", func(v map[string]bool) bool { return v["rec"] }},
+		{"CSyncSet", "sync", func(v map[string]bool) bool { return v["sync"] }},
+		{"CNotSuccess", "ok", func(v map[string]bool) bool { return !v["ok"] }},
+		{"CHasPre", "pre,skip", func(v map[string]bool) bool { return v["pre"] && !v["skip"] }},
+	} {
+		if strings.Join(names, ",") != k.roles {
+			continue
+		}
+		same, opposite := true, true
+		for m := 0; m < 1<<len(names); m++ {
+			v := map[string]bool{}
+			for i, n := range names {
+				v[n] = m>>i&1 == 1
 			}
-			u, ok := c03Unparen(q).(*ast.UnaryExpr)
-			return ok && u.Op == token.NOT && strings.HasSuffix(c03Str(c03Unparen(u.X)), ".skipPreHandler")
+			if f(v) != k.spec(v) {
+				same = false
+			} else {
+				opposite = false
+			}
 		}
-		if has(b.X, b.Y) || has(b.Y, b.X) {
-			return "CHasPre"
+		if same {
+			return k.class, false
+		}
+		if opposite {
+			return k.class, true
 		}
 	}
-	if u, ok := e.(*ast.UnaryExpr); ok && u.Op == token.NOT {
-		if id, ok := c03Unparen(u.X).(*ast.Ident); ok && tr.oks[id.Name] {
-			return "CNotSuccess"
-		}
-	}
-	return "COther"
+	return "COther", false
 }
 
 func (tr *c03Tr) ret(r *ast.ReturnStmt) string {
@@ -308,9 +502,105 @@ func (tr *c03Tr) ret(r *ast.ReturnStmt) string {
 	return "ARet " + c03List(out)
 }
 
+// an action: a leaf (rendered text) or a structured one (AIf c a b / AEach a / ALoop a / ADefer a)
+type c03A struct {
+	s    string
+	c    string
+	a, b []c03A
+}
+
+func c03Leaves(ss ...string) []c03A {
+	out := make([]c03A, len(ss))
+	for i, x := range ss {
+		out[i] = c03A{s: x}
+	}
+	return out
+}
+
+func (x c03A) structured() bool {
+	return x.s == "AIf" || x.s == "AEach" || x.s == "ALoop" || x.s == "ADefer"
+}
+
+func c03Render(l []c03A) string {
+	xs := make([]string, len(l))
+	for i, x := range l {
+		switch x.s {
+		case "AIf":
+			xs[i] = "AIf " + x.c + " " + c03Render(x.a) + " " + c03Render(x.b)
+		case "AEach", "ALoop", "ADefer":
+			xs[i] = x.s + " " + c03Render(x.a)
+		default:
+			xs[i] = x.s
+		}
+	}
+	return c03List(xs)
+}
+
+// does an action whose text starts with prefix occur anywhere in l
+func c03Has(l []c03A, prefix string) bool {
+	for _, x := range l {
+		if !x.structured() && strings.HasPrefix(x.s, prefix) {
+			return true
+		}
+		if c03Has(x.a, prefix) || c03Has(x.b, prefix) {
+			return true
+		}
+	}
+	return false
+}
+
+func c03IsLeaf(l []c03A, s string) bool { return len(l) == 1 && !l[0].structured() && l[0].s == s }
+
+func c03EndsWithRet(l []c03A) bool {
+	return len(l) > 0 && !l[len(l)-1].structured() && strings.HasPrefix(l[len(l)-1].s, "ARet")
+}
+
+// rewrites of a statement sequence that do not change its meaning:
+//
+//	if c { ..; return r } else { B }; R      ->  if c { ..; return r }; B; R
+//	for { ..; if c { break }; .. }; return r ->  for { ..; if c { return r }; .. }     (breaks at the top level of the body)
+func c03NormSeq(l []c03A) []c03A {
+	var out []c03A
+	for _, x := range l {
+		if x.s == "AIf" && c03EndsWithRet(x.a) && len(x.b) > 0 {
+			out = append(out, c03A{s: "AIf", c: x.c, a: x.a})
+			out = append(out, x.b...)
+			continue
+		}
+		out = append(out, x)
+	}
+	for i := 0; i+1 < len(out); i++ {
+		if out[i].s == "ALoop" && !out[i+1].structured() && strings.HasPrefix(out[i+1].s, "ARet") && i+2 == len(out) {
+			body, changed := make([]c03A, len(out[i].a)), false
+			for k, y := range out[i].a {
+				body[k] = y
+				if y.s == "AIf" && c03IsLeaf(y.a, "ABreak") && len(y.b) == 0 {
+					body[k] = c03A{s: "AIf", c: y.c, a: []c03A{out[i+1]}}
+					changed = true
+				}
+			}
+			if changed && !c03Has(body, "ABreak") {
+				return append(append([]c03A{}, out[:i]...), c03A{s: "ALoop", a: body})
+			}
+		}
+	}
+	return out
+}
+
+// in a loop body:  if c { } else { continue }; R   ->  if c { R }       (from `if !c { continue }; R`)
+func c03NormLoop(l []c03A) []c03A {
+	for i, x := range l {
+		if x.s == "AIf" && len(x.a) == 0 && c03IsLeaf(x.b, "ACont") {
+			rest := c03NormLoop(append([]c03A{}, l[i+1:]...))
+			return append(append([]c03A{}, l[:i]...), c03A{s: "AIf", c: x.c, a: rest})
+		}
+	}
+	return l
+}
+
 // one statement -> zero or more actions
-func (tr *c03Tr) stmt(s ast.Stmt) ([]string, error) {
-	bad := func() ([]string, error) {
+func (tr *c03Tr) stmt(s ast.Stmt) ([]c03A, error) {
+	bad := func() ([]c03A, error) {
 		return nil, fmt.Errorf("no action for the statement %q", c03NodeText(s))
 	}
 	switch x := s.(type) {
@@ -340,23 +630,23 @@ func (tr *c03Tr) stmt(s ast.Stmt) ([]string, error) {
 				if bl, ok := c.Args[1].(*ast.BasicLit); ok && bl.Kind == token.STRING {
 					k, _ := strconv.Unquote(bl.Value)
 					if g, ok := c03Kinds[k]; ok {
-						return []string{"ATrace " + g}, nil
+						return c03Leaves("ATrace " + g), nil
 					}
 				}
 			}
 			return bad()
 		case "@mu.Lock":
-			return []string{"ALock"}, nil
+			return c03Leaves("ALock"), nil
 		case "@mu.Unlock":
-			return []string{"AUnlock"}, nil
+			return c03Leaves("AUnlock"), nil
 		case "@l.PushBack":
-			return []string{"APush"}, nil
+			return c03Leaves("APush"), nil
 		case "@l.PushFront":
-			return []string{"APushFront"}, nil
+			return c03Leaves("APushFront"), nil
 		case "@updateChan":
-			return []string{"ATopUp"}, nil
+			return c03Leaves("ATopUp"), nil
 		case "@executor":
-			return []string{"AExec"}, nil
+			return c03Leaves("AExec"), nil
 		}
 		if a, ok := tr.inline(c); ok {
 			return a, nil
@@ -364,25 +654,25 @@ func (tr *c03Tr) stmt(s ast.Stmt) ([]string, error) {
 		return bad()
 	case *ast.GoStmt:
 		if tr.callee(x.Call) == "@executor" {
-			return []string{"AGo"}, nil
+			return c03Leaves("AGo"), nil
 		}
 		return bad()
 	case *ast.IncDecStmt:
 		if c03Str(x.X) == tr.recv+".num" {
 			if x.Tok == token.DEC {
-				return []string{"ADec"}, nil
+				return c03Leaves("ADec"), nil
 			}
-			return []string{"AInc"}, nil
+			return c03Leaves("AInc"), nil
 		}
 		return bad()
 	case *ast.ReturnStmt:
-		return []string{tr.ret(x)}, nil
+		return c03Leaves(tr.ret(x)), nil
 	case *ast.BranchStmt:
 		if x.Label == nil && x.Tok == token.CONTINUE {
-			return []string{"ACont"}, nil
+			return c03Leaves("ACont"), nil
 		}
 		if x.Label == nil && x.Tok == token.BREAK {
-			return []string{"ABreak"}, nil
+			return c03Leaves("ABreak"), nil
 		}
 		return bad()
 	case *ast.DeferStmt:
@@ -393,7 +683,7 @@ func (tr *c03Tr) stmt(s ast.Stmt) ([]string, error) {
 			if err != nil {
 				return nil, err
 			}
-			return []string{"ADefer " + c03List(b)}, nil
+			return []c03A{{s: "ADefer", a: b}}, nil
 		}
 		if len(x.Call.Args) != 0 {
 			return bad()
@@ -402,11 +692,11 @@ func (tr *c03Tr) stmt(s ast.Stmt) ([]string, error) {
 		if err != nil {
 			return nil, err
 		}
-		return []string{"ADefer " + c03List(b)}, nil
+		return []c03A{{s: "ADefer", a: b}}, nil
 	case *ast.AssignStmt:
 		return tr.assign(x, s)
 	case *ast.IfStmt:
-		var out []string
+		var out []c03A
 		if x.Init != nil {
 			a, err := tr.stmt(x.Init)
 			if err != nil {
@@ -414,12 +704,12 @@ func (tr *c03Tr) stmt(s ast.Stmt) ([]string, error) {
 			}
 			out = append(out, a...)
 		}
-		c := tr.cond(x.Cond)
+		c, neg := tr.cond(x.Cond)
 		th, err := tr.block(x.Body.List)
 		if err != nil {
 			return nil, err
 		}
-		var el []string
+		var el []c03A
 		switch e := x.Else.(type) {
 		case nil:
 		case *ast.BlockStmt:
@@ -433,7 +723,57 @@ func (tr *c03Tr) stmt(s ast.Stmt) ([]string, error) {
 		default:
 			return bad()
 		}
-		return append(out, "AIf "+c+" "+c03List(th)+" "+c03List(el)), nil
+		if neg {
+			th, el = el, th // `if !c { A } else { B }` is `if c { B } else { A }`
+		}
+		return append(out, c03A{s: "AIf", c: c, a: th, b: el}), nil
+	case *ast.SwitchStmt:
+		// a switch without tag: an if / else-if chain (no break / fallthrough inside)
+		if x.Init != nil || x.Tag != nil {
+			return bad()
+		}
+		var clauses []*ast.CaseClause
+		var def *ast.CaseClause
+		for _, cs := range x.Body.List {
+			cc := cs.(*ast.CaseClause)
+			if cc.List == nil {
+				def = cc
+			} else if len(cc.List) == 1 && def == nil {
+				clauses = append(clauses, cc)
+			} else {
+				return bad() // several expressions in a case, or a case after default
+			}
+		}
+		var chain []c03A
+		if def != nil {
+			b, err := tr.block(def.Body)
+			if err != nil {
+				return nil, err
+			}
+			chain = b
+		}
+		conds := make([]string, len(clauses))
+		negs := make([]bool, len(clauses))
+		bodies := make([][]c03A, len(clauses))
+		for i, cc := range clauses {
+			conds[i], negs[i] = tr.cond(cc.List[0])
+			b, err := tr.block(cc.Body)
+			if err != nil {
+				return nil, err
+			}
+			if c03Has(b, "ABreak") || c03Has(b, "AFallthrough") {
+				return bad()
+			}
+			bodies[i] = b
+		}
+		for i := len(clauses) - 1; i >= 0; i-- {
+			th, el := bodies[i], chain
+			if negs[i] {
+				th, el = el, th
+			}
+			chain = []c03A{{s: "AIf", c: conds[i], a: th, b: el}}
+		}
+		return chain, nil
 	case *ast.RangeStmt:
 		if tr.tasksVar == "" || c03Str(x.X) != tr.tasksVar {
 			return bad()
@@ -442,7 +782,7 @@ func (tr *c03Tr) stmt(s ast.Stmt) ([]string, error) {
 		if err != nil {
 			return nil, err
 		}
-		return []string{"AEach " + c03List(b)}, nil
+		return []c03A{{s: "AEach", a: c03NormLoop(b)}}, nil
 	case *ast.ForStmt:
 		if x.Init != nil || x.Cond != nil || x.Post != nil {
 			return bad()
@@ -451,7 +791,7 @@ func (tr *c03Tr) stmt(s ast.Stmt) ([]string, error) {
 		if err != nil {
 			return nil, err
 		}
-		return []string{"ALoop " + c03List(b)}, nil
+		return []c03A{{s: "ALoop", a: c03NormLoop(b)}}, nil
 	case *ast.BlockStmt:
 		return tr.block(x.List)
 	}
@@ -460,7 +800,7 @@ func (tr *c03Tr) stmt(s ast.Stmt) ([]string, error) {
 
 // a private helper method of taskManager called as a statement: its body in place of the call (a helper that
 // returns a value or returns early is not inlined)
-func (tr *c03Tr) inline(c *ast.CallExpr) ([]string, bool) {
+func (tr *c03Tr) inline(c *ast.CallExpr) ([]c03A, bool) {
 	name := tr.callee(c)
 	if !strings.HasPrefix(name, "@") || strings.Contains(name[1:], ".") || tr.file == nil || tr.depth >= 3 {
 		return nil, false
@@ -478,10 +818,8 @@ func (tr *c03Tr) inline(c *ast.CallExpr) ([]string, bool) {
 	if err != nil {
 		return nil, false
 	}
-	for _, a := range acts {
-		if strings.Contains(a, "ARet") {
-			return nil, false
-		}
+	if c03Has(acts, "ARet") {
+		return nil, false
 	}
 	return acts, true
 }
@@ -505,8 +843,8 @@ func c03NodeText(s ast.Stmt) string {
 	return fmt.Sprintf("%T", s)
 }
 
-func (tr *c03Tr) assign(x *ast.AssignStmt, s ast.Stmt) ([]string, error) {
-	bad := func() ([]string, error) {
+func (tr *c03Tr) assign(x *ast.AssignStmt, s ast.Stmt) ([]c03A, error) {
+	bad := func() ([]c03A, error) {
 		return nil, fmt.Errorf("no action for the statement %q", c03NodeText(s))
 	}
 	if len(x.Rhs) != 1 {
@@ -518,9 +856,9 @@ func (tr *c03Tr) assign(x *ast.AssignStmt, s ast.Stmt) ([]string, error) {
 	if len(x.Lhs) == 1 && lhs0 == tr.recv+".num" && c03Str(rhs) == "1" {
 		switch x.Tok {
 		case token.ADD_ASSIGN:
-			return []string{"AInc"}, nil
+			return c03Leaves("AInc"), nil
 		case token.SUB_ASSIGN:
-			return []string{"ADec"}, nil
+			return c03Leaves("ADec"), nil
 		}
 		return bad()
 	}
@@ -530,7 +868,7 @@ func (tr *c03Tr) assign(x *ast.AssignStmt, s ast.Stmt) ([]string, error) {
 	// x := <-t.done
 	if u, ok := rhs.(*ast.UnaryExpr); ok && u.Op == token.ARROW {
 		if c03Str(c03Unparen(u.X)) == tr.recv+".done" && len(x.Lhs) == 1 {
-			return []string{"ARecv"}, nil
+			return c03Leaves("ARecv"), nil
 		}
 		return bad()
 	}
@@ -538,14 +876,14 @@ func (tr *c03Tr) assign(x *ast.AssignStmt, s ast.Stmt) ([]string, error) {
 	if c03ContainsCall(rhs, "recover") {
 		if len(x.Lhs) == 1 && x.Tok == token.DEFINE {
 			tr.recovers[lhs0] = true
-			return []string{"ARecover"}, nil
+			return c03Leaves("ARecover"), nil
 		}
 		return bad()
 	}
 	// flag := false / flag = true
 	if id, ok := rhs.(*ast.Ident); ok && (id.Name == "true" || id.Name == "false") && len(x.Lhs) == 1 {
 		if _, ok := x.Lhs[0].(*ast.Ident); ok {
-			return []string{"AFlag " + id.Name}, nil
+			return c03Leaves("AFlag " + id.Name), nil
 		}
 		return bad()
 	}
@@ -557,17 +895,17 @@ func (tr *c03Tr) assign(x *ast.AssignStmt, s ast.Stmt) ([]string, error) {
 			}
 			switch a := c03Str(c.Args[1]); {
 			case strings.HasSuffix(a, ".preProcessor"):
-				return []string{"APre"}, nil
+				return c03Leaves("APre"), nil
 			case strings.HasSuffix(a, ".postProcessor"):
-				return []string{"APost"}, nil
+				return c03Leaves("APost"), nil
 			case strings.HasSuffix(a, ".action"):
-				return []string{"ABody"}, nil
+				return c03Leaves("ABody"), nil
 			}
 			return bad()
 		case "@waitOne":
 			if len(x.Lhs) == 2 && x.Tok == token.DEFINE {
 				tr.oks[c03Str(x.Lhs[1])] = true
-				return []string{"ACallWaitOne"}, nil
+				return c03Leaves("ACallWaitOne"), nil
 			}
 			return bad()
 		case "initNodeCallbacks":
@@ -579,7 +917,7 @@ func (tr *c03Tr) assign(x *ast.AssignStmt, s ast.Stmt) ([]string, error) {
 			return bad()
 		case "append":
 			if len(x.Lhs) == 1 && len(c.Args) == 2 && c03Str(c.Args[0]) == lhs0 && c.Ellipsis == token.NoPos {
-				return []string{"AAppend"}, nil
+				return c03Leaves("AAppend"), nil
 			}
 			return bad()
 		}
@@ -590,26 +928,26 @@ func (tr *c03Tr) assign(x *ast.AssignStmt, s ast.Stmt) ([]string, error) {
 	// sync = tasks[0] ; tasks = tasks[1:]
 	if ix, ok := rhs.(*ast.IndexExpr); ok && tr.tasksVar != "" && c03Str(ix.X) == tr.tasksVar && c03Str(ix.Index) == "0" {
 		tr.syncs[lhs0] = true
-		return []string{"APickSync"}, nil
+		return c03Leaves("APickSync"), nil
 	}
 	if sl, ok := rhs.(*ast.SliceExpr); ok && tr.tasksVar != "" && c03Str(sl.X) == tr.tasksVar && lhs0 == tr.tasksVar &&
 		sl.Low != nil && c03Str(sl.Low) == "1" && sl.High == nil && !sl.Slice3 {
-		return []string{"ARest"}, nil
+		return c03Leaves("ARest"), nil
 	}
 	// task.err = .. / task.output = .. / task.input = ..
 	switch {
 	case strings.HasSuffix(lhs0, ".err"):
-		return []string{"ASetErr"}, nil
+		return c03Leaves("ASetErr"), nil
 	case strings.HasSuffix(lhs0, ".output"):
-		return []string{"ASetOutput"}, nil
+		return c03Leaves("ASetOutput"), nil
 	case strings.HasSuffix(lhs0, ".input"):
-		return []string{"ASetInput"}, nil
+		return c03Leaves("ASetInput"), nil
 	}
 	return bad()
 }
 
-func (tr *c03Tr) block(l []ast.Stmt) ([]string, error) {
-	out := []string{}
+func (tr *c03Tr) block(l []ast.Stmt) ([]c03A, error) {
+	out := []c03A{}
 	for _, s := range l {
 		a, err := tr.stmt(s)
 		if err != nil {
@@ -617,7 +955,7 @@ func (tr *c03Tr) block(l []ast.Stmt) ([]string, error) {
 		}
 		out = append(out, a...)
 	}
-	return out, nil
+	return c03NormSeq(out), nil
 }
 
 // updateChan:  for t.l.Len() > 0 { select { case t.done <- t.l.Front().Value.(*task): ..; t.l.Remove(t.l.Front()) ; default: ..; return } }
@@ -974,7 +1312,7 @@ func c03ExtractTm(repo string) (string, string, error) {
 		if err != nil {
 			return nil, fmt.Errorf("%s: %v", name, err)
 		}
-		b.WriteString("Definition code_" + name + " : list act :=\n  " + c03List(acts) + ".\n")
+		b.WriteString("Definition code_" + name + " : list act :=\n  " + c03Render(acts) + ".\n")
 		return tr, nil
 	}
 	if _, err := emit("executor"); err != nil {
